@@ -59,8 +59,11 @@ ASSUMPTIONS = [
 ]
 
 ETA = Fr(1, 10 ** 6)          # relative guard band around the 0.1-px inset
-MAX_CELLS = 700               # generated tasks are kept below this many meta tiles (flat estimate)
-MAX_STATES = 60               # continued runs per case (distinct progress-file states)
+N_QUICK = 4000
+N_THOROUGH = 120000
+MAX_CELLS = 400               # generated tasks are kept below this many meta tiles (flat estimate)
+REAL_ALL_K = 30               # really interrupted runs for every k up to this many process() calls, 16 sampled k above
+MAX_STATES = 40               # continued runs per case (distinct progress-file states)
 
 SIG_INSET = 'C11/missing-tile/ancestor-inset'
 SIG_SPLIT = 'C11/missing-tile/split-inset'
@@ -80,7 +83,21 @@ PRIORITY = [SIG_OUTSIDE_GRID, SIG_WRONG_LEVEL, SIG_UNALIGNED, SIG_PARTIAL_META, 
             SIG_REACHABLE, SIG_UNEXPLAINED, SIG_RESUME, SIG_RESUME_ABORT, SIG_INSET, SIG_SPLIT, SIG_GAP]
 
 
+# the progress file is rewritten thousands of times per case: keep the scratch dir on tmpfs when there is one
+_SCRATCH_BASE = '/dev/shm' if os.path.isdir('/dev/shm') and os.access('/dev/shm', os.W_OK) else None
+
+
+_OPEN = {}
+
+
 def _open_signatures():
+    key = os.environ.get('VERIF_C11_ASSUME_FIXED') or ''
+    if key not in _OPEN:
+        _OPEN[key] = _load_open_signatures()
+    return _OPEN[key]
+
+
+def _load_open_signatures():
     sigs = core.open_signatures(PROPERTY)
     # used only to verify a proposed repair on a scratch copy: treat these findings as repaired
     for s in (os.environ.get('VERIF_C11_ASSUME_FIXED') or '').split(','):
@@ -163,7 +180,7 @@ class Env(object):
 
     def __init__(self, case):
         self.case = case
-        self.tmp = tempfile.mkdtemp(prefix='c11_')
+        self.tmp = tempfile.mkdtemp(prefix='c11_', dir=_SCRATCH_BASE)
         self.store_path = os.path.join(self.tmp, 'progress')
         self.tasks = None
 
@@ -442,8 +459,8 @@ def reachable(pyr, cov, E, cell, mode, last_level, allow_oog=False):
         if mode == 'strict':
             return pyr.delta(z) * (1 + ETA) + pyr.tau(z)
         if mode == 'last':
-            return max(Fr(0), pyr.delta(last_level) * (1 - ETA) - pyr.tau(z))
-        return Fr(0)
+            return max(2 * pyr.tau(z), pyr.delta(last_level) * (1 - ETA) - pyr.tau(z))
+        return 2 * pyr.tau(z)
 
     def rec(z, R):
         rng = pyr.index_range(R, inset(z), z)
@@ -467,10 +484,7 @@ def reachable(pyr, cov, E, cell, mode, last_level, allow_oog=False):
                 elif not cov.hits(grow(r, pyr.tau(z))):
                     continue
                 R2 = isect(R, r)
-                if mode == 'strict':
-                    if not overlap_pos(R2, target):
-                        continue
-                elif not overlap_pos(grow(R2, pyr.tau(z)), target):
+                if not overlap_pos(grow(R2, -pyr.tau(z)), target):
                     continue
                 if rec(z + 1, R2):
                     return True
@@ -600,7 +614,7 @@ def check_handed(env, full, pyrs, covs, Es, excuse, st_, out):
     return n_required, handed_cells
 
 
-def evaluate(case, st_, excuse=()):
+def evaluate(case, st_, excuse=(), size_guard=True):
     """-> (dict signature -> message, info dict)"""
     out = {}
     info = {'classes': [], 'nontrivial': False}
@@ -628,7 +642,7 @@ def evaluate(case, st_, excuse=()):
             covs.append(cov)
             Es.append(tuple(Fr(v) for v in task.coverage.extent.bbox_for(task.grid.srs)))
         size = sum(estimate_cells(p, c.bounds, t.levels) for p, c, t in zip(pyrs, covs, tasks))
-        if size > MAX_CELLS * (2 if case.get('rescale') else 1):
+        if size_guard and size > MAX_CELLS * (2 if case.get('rescale') else 1):
             st_.excluded['task-too-large'] += 1
             return out, None
 
@@ -659,7 +673,7 @@ def evaluate(case, st_, excuse=()):
                 order.append(s)
         info['states'] = len(order)
         inside_after_save = any(s is not None and 0 < k for s, k in state_first_k.items())
-        real_ks = list(range(N)) if N <= 60 else sorted(set(int(f * N) % N for f in case['k_picks']))
+        real_ks = list(range(N)) if N <= REAL_ALL_K else sorted(set(int(f * N) % N for f in case['k_picks']))
         exc_kind = case.get('exc', 'seed')
         mismatch = False
         for k in real_ks:
@@ -672,7 +686,7 @@ def evaluate(case, st_, excuse=()):
                 b = env.run(state=a.final_state)
                 _judge_resume(out, case, full, full_set, k, set(a.handed), b, 'k=%d' % k)
         st_.extra['interruption_points_real'] = st_.extra.get('interruption_points_real', 0) + len(real_ks)
-        if mismatch and N > 60:
+        if mismatch and N > REAL_ALL_K:
             st_.inconclusive['interrupt-path-differs-sampled-only'] += 1
         states = order
         if len(states) > MAX_STATES:
@@ -726,7 +740,7 @@ def evaluate(case, st_, excuse=()):
             cl.append('resume:interruption-after-saved-progress')
         for s in out.get('excused', ()):
             cl.append('excused:' + s.split('/')[-1])
-        if N <= 60:
+        if N <= REAL_ALL_K:
             cl.append('k:all-real')
         else:
             cl.append('k:all-inferred+sampled-real')
@@ -784,6 +798,8 @@ def _coverage_classes(covs):
             out.add(c['type'] + (':other-srs' if c.get('other_srs') else ''))
             if c.get('shape'):
                 out.add('shape:' + c['shape'])
+            if c.get('placement'):
+                out.add('placement:' + c['placement'])
         else:
             out.add(c['type'])
             for p in c['parts']:
@@ -824,9 +840,9 @@ def window_specs(draw):
     """a rectangle relative to the tiles of a focus level: (start cell fraction of the grid, size in tiles, px offsets)"""
     return {
         'u': (draw(unit), draw(unit)),
-        'size': (draw(st.sampled_from([0.3, 0.6, 1.0, 1.0, 1.5, 2.0, 2.0, 3.0, 4.5, 7.0])),
-                 draw(st.sampled_from([0.3, 0.6, 1.0, 1.0, 1.5, 2.0, 2.0, 3.0, 4.5, 7.0]))),
-        'snap': draw(st.sampled_from(['edge', 'edge', 'edge', 'free'])),
+        'size': (draw(st.sampled_from([0.02, 0.3, 1.0, 1.5, 2.0, 3.0, 3.0, 4.5, 7.0, 7.0, 11.0])),
+                 draw(st.sampled_from([0.02, 0.3, 1.0, 1.5, 2.0, 3.0, 3.0, 4.5, 7.0, 7.0, 11.0]))),
+        'snap': draw(st.sampled_from(['edge', 'edge', 'edge', 'free', 'coarse', 'coarse'])),
         'off': [draw(st.sampled_from(PX_OFFSETS)) for _ in range(4)],
         'frac': [draw(unit) for _ in range(4)],
         'beyond': draw(st.sampled_from([None, None, None, None, None, 'w', 'e', 's', 'n', 'all'])),
@@ -868,7 +884,7 @@ def specs(draw):
         'grid': g,
         'meta': (draw(st.integers(1, 4)), draw(st.integers(1, 4))) if draw(st.booleans()) else
                 (lambda m: (m, m))(draw(st.integers(1, 4))),
-        'focus': draw(unit),
+        'focus': draw(st.sampled_from([0, 0, 0, 0, 1, 1, 2, 3, 5])),     # focus level, counted from the finest
         'levels': {'kind': draw(st.sampled_from(['list', 'list', 'list', 'range', 'all'])),
                    'mask': draw(st.lists(st.booleans(), min_size=12, max_size=12)),
                    'from': draw(st.sampled_from([None, 0, 1, 2, 3])), 'deeper': draw(st.sampled_from([0, 0, 1, 1, 2])),
@@ -951,7 +967,7 @@ def concretize(spec):
     meta = list(spec['meta'])
     pyr = Pyramid(grid, meta)
     n = grid.levels
-    zf = min(n - 1, int(spec['focus'] * n))
+    zf = max(0, n - 1 - spec['focus'])
     srs = gd['srs']
     dom = SRS_DOMAIN[srs]
 
@@ -963,13 +979,41 @@ def concretize(spec):
         iy = round(w['u'][1] * max(0.0, gy - w['size'][1]))
         x0 = grid.bbox[0] + (ix + shift[0] * w['size'][0]) * sx
         y0 = grid.bbox[1] + (iy + shift[1] * w['size'][1]) * sy
-        x1 = x0 + w['size'][0] * sx
-        y1 = y0 + w['size'][1] * sy
-        b = [x0, y0, x1, y1]
-        if w['snap'] == 'edge':
+        b = [x0, y0, x0 + w['size'][0] * sx, y0 + w['size'][1] * sy]
+        # keep the window inside the area where the SRS (and the other SRS) is usable: translate, then clip
+        lim = list(dom)
+        if srs == 'EPSG:4326':
+            lim[1], lim[3] = -84.0, 84.0
+        for lo, hi in ((0, 2), (1, 3)):
+            if b[hi] > lim[hi]:
+                d = min(b[hi] - lim[hi], b[lo] - lim[lo])
+                b[lo], b[hi] = b[lo] - max(d, 0.0), b[hi] - max(d, 0.0)
+        snap = w['snap']
+        if snap == 'coarse' and zf == 0:
+            snap = 'edge'
+        if snap == 'edge':
             b = [b[i] + w['off'][i] * r for i in range(4)]
-        else:
+        elif snap == 'free':
             b = [b[0] + w['frac'][0] * sx, b[1] + w['frac'][1] * sy, b[2] + w['frac'][2] * sx, b[3] + w['frac'][3] * sy]
+        else:
+            # some edges sit a fraction of the *coarser* level's 0.1-px inset beyond a tile edge of that coarser level
+            lc = min(zf - 1, int(w['frac'][0] * zf))
+            csx, csy = [float(v) for v in pyr.ref.span(lc)]
+            dl = float(pyr.ref.res[lc]) / 10.0
+            f = [0.5, 0.9, 1.1, 0.2, 3.0][int(w['frac'][1] * 4.999)]
+            which = int(w['frac'][2] * 14.999) + 1        # non-empty subset of the four edges
+            for i in range(4):
+                if not which & (1 << i):
+                    continue
+                span, org = (csx, grid.bbox[0]) if i % 2 == 0 else (csy, grid.bbox[1])
+                edge = org + round((b[i] - org) / span) * span
+                if grid.origin == 'ul' and i % 2 == 1:
+                    edge = grid.bbox[3] - round((grid.bbox[3] - b[i]) / span) * span
+                b[i] = edge - f * dl if i < 2 else edge + f * dl
+            if b[2] <= b[0]:
+                b[2] = b[0] + w['size'][0] * sx
+            if b[3] <= b[1]:
+                b[3] = b[1] + w['size'][1] * sy
         gw, gh = grid.bbox[2] - grid.bbox[0], grid.bbox[3] - grid.bbox[1]
         by = w['beyond']
         if by in ('w', 'all'):
@@ -980,10 +1024,7 @@ def concretize(spec):
             b[1] = grid.bbox[1] - 0.07 * gh
         if by in ('n', 'all'):
             b[3] = grid.bbox[3] + 0.07 * gh
-        # stay inside the area where the SRS (and the other SRS) is usable
-        b = [max(b[0], dom[0]), max(b[1], dom[1]), min(b[2], dom[2]), min(b[3], dom[3])]
-        if srs == 'EPSG:4326':
-            b[1], b[3] = max(b[1], -84.0), min(b[3], 84.0)
+        b = [max(b[0], lim[0]), max(b[1], lim[1]), min(b[2], lim[2]), min(b[3], lim[3])]
         if not (b[2] - b[0] > 1e-3 * r and b[3] - b[1] > 1e-3 * r):
             return None
         return b
@@ -1000,7 +1041,8 @@ def concretize(spec):
                     b = list(SRS(srs).transform_bbox_to(SRS(other), b))
                     if not all(math.isfinite(v) for v in b):
                         return None
-                return {'type': 'bbox', 'srs': other or srs, 'bbox': b, 'other_srs': bool(other)}
+                return {'type': 'bbox', 'srs': other or srs, 'bbox': b, 'other_srs': bool(other),
+                        'placement': c['window']['snap']}
             ext, holes = SHAPES[c['shape']]
             wkts = []
             for pi in range(c['n_polys']):
@@ -1022,7 +1064,8 @@ def concretize(spec):
                         return None
                     rings.append('(' + ', '.join('%r %r' % (float(p[0]), float(p[1])) for p in pts) + ')')
                 wkts.append('POLYGON(' + ', '.join(rings) + ')')
-            return {'type': 'polygon', 'srs': other or srs, 'wkt': wkts, 'shape': c['shape'], 'other_srs': bool(other)}
+            return {'type': 'polygon', 'srs': other or srs, 'wkt': wkts, 'shape': c['shape'], 'other_srs': bool(other),
+                    'placement': c['window']['snap']}
         parts = [conc_cov(c['parts'][0]), conc_cov(c['parts'][1], c['shift'])]
         if any(p is None for p in parts):
             return None
@@ -1043,11 +1086,11 @@ def concretize(spec):
         levels = {'kind': 'all'}
         chosen = list(range(n))
     elif lv['kind'] == 'range':
-        lo = lv['from']
+        lo = lv['from'] if lv['from'] is None else min(lv['from'], top)
         levels = {'kind': 'range', 'from': lo, 'to': top}
         chosen = list(range(lo or 0, top + 1))
     else:
-        chosen = [z for z in range(top + 1) if lv['mask'][z % 12]]
+        chosen = [z for z in range(top + 1) if not lv['mask'][z % 12]]
         if top not in chosen:
             chosen.append(top)
         listed = list(chosen)
@@ -1086,6 +1129,11 @@ def concretize(spec):
 
 # ------------------------------------------------------------------------------------------------
 # driver
+#
+# One evaluation costs 0.1-1 s (dozens of real walks), so Hypothesis' shrinker (hundreds of evaluations per
+# signature, once more per additional signature) does not fit the budget.  Instead every evaluated case reports
+# *all* its violated clauses, the smallest case per root-cause signature is kept while the search simply goes on
+# (one defect never hides another), and the kept case is reduced by a bounded structural minimiser.
 
 
 def check_spec(spec, st_):
@@ -1093,21 +1141,15 @@ def check_spec(spec, st_):
     if case is None:
         st_.excluded[reason] += 1
         return None
-    return check_concrete(case, st_, _open_signatures())
-
-
-def check_concrete(case, st_, excuse):
-    out, info = evaluate(case, st_, excuse)
+    out, info = evaluate(case, st_, _open_signatures())
     if info is None:
         return None
     st_.case(key=case, nontrivial=info['nontrivial'], classes=info['classes'], sample=_sample(case, info))
-    reported = set(v.signature for v in st_.violations)
+    best = st_.extra.setdefault('_best', {})
+    size = (info.get('process_calls') or 0, len(json.dumps(case)))
     for sig in PRIORITY:
-        if sig in out and sig not in reported:
-            return core.Violation(sig, out[sig], case)
-    for sig in PRIORITY:
-        if sig in out:
-            return core.Violation(sig, out[sig], case)
+        if sig in out and (sig not in best or size < best[sig][0]):
+            best[sig] = (size, out[sig], case)
     return None
 
 
@@ -1120,21 +1162,95 @@ def _sample(case, info):
     return s
 
 
+def minimise(case, sig, budget=24):
+    """bounded structural reduction of a violating concrete case (keeps the root-cause signature)"""
+    scratch = core.Stats()
+
+    def still(c):
+        try:
+            out, info = evaluate(c, scratch, excuse=())
+        except Exception:
+            return None
+        return out.get(sig) if info is not None else None
+
+    def variants(c):
+        if c.get('rescale'):
+            yield dict(c, rescale=None)
+        if c['refresh'] != 'all':
+            yield dict(c, refresh='all')
+        if len(c['coverage']) > 1:
+            for part in c['coverage']:
+                yield dict(c, coverage=[part])
+        for i, part in enumerate(c['coverage']):
+            if part['type'] not in ('bbox', 'polygon'):
+                for sub in part['parts']:
+                    yield dict(c, coverage=c['coverage'][:i] + [sub] + c['coverage'][i + 1:])
+            elif part['type'] == 'polygon' and len(part['wkt']) > 1:
+                for w in part['wkt']:
+                    yield dict(c, coverage=c['coverage'][:i] + [dict(part, wkt=[w])] + c['coverage'][i + 1:])
+        if c['skip']:
+            yield dict(c, skip=0)
+        if list(c['meta']) != [1, 1]:
+            yield dict(c, meta=[1, 1])
+        lv = c['levels']
+        if lv['kind'] == 'list' and len(set(lv['levels'])) > 1:
+            for z in sorted(set(lv['levels']), reverse=True):
+                yield dict(c, levels={'kind': 'list', 'levels': [z]})
+            for z in sorted(set(lv['levels'])):
+                yield dict(c, levels={'kind': 'list', 'levels': [x for x in lv['levels'] if x != z]})
+        elif lv['kind'] != 'list':
+            n = len(c['grid']['res']) if c['grid']['mode'] == 'custom' else c['grid']['num_levels']
+            lo = (lv.get('from') or 0) if lv['kind'] == 'range' else 0
+            hi = min(n - 1, lv['to']) if lv['kind'] == 'range' and lv.get('to') is not None else n - 1
+            yield dict(c, levels={'kind': 'list', 'levels': list(range(lo, hi + 1))})
+        if c['save'].get('kind') != 'all' and sig not in (SIG_RESUME, SIG_RESUME_ABORT):
+            yield dict(c, save={'kind': 'all'})
+
+    msg = None
+    progress = True
+    while progress and budget > 0:
+        progress = False
+        for v in variants(case):
+            if budget <= 0:
+                break
+            budget -= 1
+            m = still(v)
+            if m:
+                case, msg, progress = v, m, True
+                break
+    return case, msg
+
+
 def random_shard(shard, nshards, seed, tier):
     st_ = core.Stats()
-    n = (2400 if tier == 'quick' else 80000) // nshards
-    core.hyp_search(specs(), check_spec, st_, max_examples=n, seed=seed, max_signatures=6)
+    n = (N_QUICK if tier == 'quick' else N_THOROUGH) // nshards
+    core.hyp_search(specs(), check_spec, st_, max_examples=n, seed=seed, shrink=False)
+    for sig, (size, msg, case) in st_.extra.pop('_best', {}).items():
+        v = core.Violation(sig, msg, case)
+        v.size = size
+        st_.violations.append(v)
     return st_
 
 
 def run(tier, seed, stats):
-    stats.merge(core.parallel(random_shard, 16, seed, tier))
+    merged = core.parallel(random_shard, 16, seed, tier)
+    best = {}
+    for v in merged.violations:
+        if v.signature not in best or v.size < best[v.signature].size:
+            best[v.signature] = v
+    merged.violations = []
+    for sig in PRIORITY:
+        if sig in best:
+            v = best[sig]
+            case, msg = minimise(_normalise(v.case), sig)
+            merged.violations.append(core.Violation(sig, msg or v.message, case))
+    stats.merge(merged)
     stats.extra['open_findings_excused_by_signature'] = sorted(s for s in _open_signatures() if s in EXCUSABLE)
 
 
 def replay(case, stats):
     """Re-execute one concrete case; nothing is excused (an open finding shows up as KNOWN-FINDING)."""
-    out, info = evaluate(_normalise(case), stats, excuse=())
+    out, info = evaluate(_normalise(case), stats, excuse=(), size_guard=False)
     if info is not None:
         stats.case(key=case, nontrivial=info['nontrivial'], classes=info['classes'])
     return [core.Violation(sig, out[sig], case) for sig in PRIORITY if sig in out]
